@@ -2,18 +2,13 @@ import os
 
 from .props import HDR, standard
 
-# Teeth test / fix evaluation only: VERIF_C05_BALANCE_GO=<scratch copy of balance.go> is supplied to the
-# build through the overlay instead of /repo/services/keep-balance/balance.go (nothing in /repo is touched).
+# Teeth test only: VERIF_C05_BALANCE_GO=<scratch copy of balance.go> is supplied to the build through the
+# overlay instead of /repo/services/keep-balance/balance.go (nothing in /repo is touched).
+
 
 def run(ctx):
     n = {"quick": 2000, "thorough": 40000}[ctx.tier]
     nx = {"quick": 3000, "thorough": 10 ** 9}[ctx.tier]   # thorough: the whole enumeration (~132 000 layouts)
-
-    # VERIF_C05_FIXED=1: judge against the model of the repaired algorithm (model/C05_fixed.v), no known bits
-    fixed = os.environ.get("VERIF_C05_FIXED") in ("1", "2")   # 1: model/C05_fixed.v (protection pass), 2: model/C05_fixed2.v (recommended)
-    fn = "failing_fixed2" if os.environ.get("VERIF_C05_FIXED") == "2" else "failing_fixed"
-    footer = ("Definition R := Eval vm_compute in %s cases.\nPrint R.\n"
-              "Definition NC := Eval vm_compute in List.length cases.\nPrint NC.\n" % fn) if fixed else None
     rep = os.environ.get("VERIF_C05_BALANCE_GO")
     replace = {"services/keep-balance/balance.go": rep} if rep else None
 
@@ -21,12 +16,12 @@ def run(ctx):
         hdr = HDR.format(imports="model.C05_model model.C05_run")
         ctx.stage("c05" + suffix, "services/keep-balance", "main", ["C05/zz_verif_c05_test.go"], "TestVerifC05$",
                   n * mult, hdr, seed_offset=off, shard=500 if ctx.tier == "quick" else 2500,
-                  env={"VERIF_STAGE": "c05" + suffix}, timeout=1500, replace=replace, footer=footer)
+                  env={"VERIF_STAGE": "c05" + suffix}, timeout=1500, replace=replace)
         ctx.stage("c05x" + suffix, "services/keep-balance", "main", ["C05/zz_verif_c05_test.go"], "TestVerifC05X$",
                   nx * mult, hdr, seed_offset=off, shard=500 if ctx.tier == "quick" else 2500,
-                  env={"VERIF_STAGE": "c05x" + suffix}, timeout=1500, replace=replace, footer=footer)
-    return standard(ctx, "C05", ["model/C05_run.vo"], stages,
-                    known_bits={} if fixed else {4: "F1", 8: "F10", 16: "F12", 32: "F8"},
+                  env={"VERIF_STAGE": "c05x" + suffix}, timeout=1500, replace=replace)
+    # F1, F10, F12, F8 are repaired in /repo: no known-finding bit is accepted, any such case is a violation
+    return standard(ctx, "C05", ["model/C05_run.vo"], stages, known_bits={},
                     rule="layouts generated in 7 strata (general; shared device x empty better-ranked slot; one class twice on a server x "
                          "non-member mount elsewhere; desired class without mount; all read-only; comparator ties; no replica) plus the "
                          "enumeration of two small scopes (X1: 1-4 single-mount services, replica state x Replication x one shared pair x "
